@@ -20,7 +20,7 @@ func TestC36(t *testing.T) {
 	m.Assume("the harness pipe (reliable, ordered, one mutex, total order log) and the hand-written codec; the application services every queue, so a stalled mux.loop is never caused by the harness")
 	m.Note("a CHANNEL_REQUEST flood (>16) to a channel whose OpenChannel is still pending cannot be serviced by any application and stalls mux.loop; the main workload stays below that bound (at most 10 early requests)")
 
-	total := m.N(1920, 120000)
+	total := m.N(1920, 15360)
 	m.Cases("dialogue", total, func(i int64, r *rand.Rand) { dialogueCase(m, i, r) })
 
 	// deterministic schedules (batch 0 only), last because a stall leaves goroutines behind
